@@ -13,6 +13,139 @@ from . import build, proto, core, gen, translate, solvelib, lpfam, hist, histrun
 OBL = [("Qsx.Props.C06", t) for t in ["Qsx.Props.C06.step_total", "Qsx.Props.C06.err_unchanged"]]
 
 
+STORE_W = {"addcol": 20, "newcol": 3, "addrow": 25, "addrrow": 8, "newrow": 3, "delrow": 3, "delrows": 3, "delsetrows": 2, "delcol": 3, "delcols": 3,
+           "delsetcols": 2, "chgcoef": 25, "chgsense": 2, "chgobj": 1, "chgrhs": 1}
+RAWF = ["matrows", "matcols", "matsize", "matfree", "matcolsize", "nstruct"]
+
+
+def store_op(line):
+    """the column-store operation a harness line performs (None: it does not touch the store's index arrays)"""
+    t = line.split()
+    c = t[0]
+    if c in ("addrow", "addrrow", "newrow"):
+        coef = "-1" if t[3] in ("G", "R") else "1"
+        rest = t[5:] if c == "addrow" else t[6:] if c == "addrrow" else ["0"]
+        return "ar %s %s" % (coef, " ".join(rest))
+    if c in ("addcol", "newcol"):
+        rest = t[6:] if c == "addcol" else ["0"]
+        return "ac " + " ".join(rest)
+    if c == "chgcoef":
+        return "cc %s %s %s" % (t[2], t[3], t[4])
+    if c in ("delrow", "delcol"):
+        return "%s 1 %s" % ("dr" if c == "delrow" else "dc", t[2])
+    if c in ("delrows", "delcols"):
+        return "%s %s" % ("dr" if c == "delrows" else "dc", " ".join(t[2:]))
+    if c in ("delsetrows", "delsetcols"):
+        idx = [str(i) for i, f in enumerate(t[3:]) if f != "0"]
+        if not idx:
+            return None
+        return "%s %d %s" % ("dr" if c == "delsetrows" else "dc", len(idx), " ".join(idx))
+    return None
+
+
+def raw_view(block):
+    """the index arrays of a dumpraw block in the model's vocabulary"""
+    v = proto.get(block, "raw")
+    if not v:
+        return None
+    d = dict(x.split("=") for x in v)
+    out = {"raw": [d[k] for k in RAWF]}
+    for k in ("structmap", "rowmap", "matbeg", "matcnt", "matind"):
+        out[k] = proto.get(block, k)
+    return out
+
+
+def store_tie(exe, rng, quick, ev, rep, pinf_ninf):
+    """(b) raw arrays of the column store vs the Lean Store model, after every call"""
+    jobs = []
+    for k in range(40 if quick else 600):
+        r = rng.fork("store%d" % k)
+        if r.chance(0.3):
+            lp = gen.random_lp(r, m=r.rint(1, 5), n=r.rint(1, 6), dens=0.7)
+            start, m0 = "new 0 " + lp.line(), lp
+        else:
+            start, m0 = "create 0 min", None
+        ops, kinds = histrun.gen_history(r, r.rint(5, 60), start_lp=m0, weights=STORE_W, probes=False, p_invalid=0.03)
+        jobs.append((start, ops))
+    for k in range(3 if quick else 30):
+        # long, add-heavy: the store is rebuilt (matrix_addrow_end) and grown (matrix_addcol) many times
+        r = rng.fork("storelong%d" % k)
+        ops, kinds = histrun.gen_history(r, 300 if quick else 700, start_lp=None, weights=dict(STORE_W, addrow=40, addcol=30, chgcoef=40), probes=False)
+        jobs.append(("create 0 min", ops))
+    def work(job):
+        start, ops = job
+        lines = [start, "dumpraw 0"]
+        for o in ops:
+            lines += [o, "dumpraw 0"]
+        return lines, proto.run_harness(exe, lines, timeout=900)
+    from concurrent.futures import ThreadPoolExecutor
+    with ThreadPoolExecutor(build.NCPU) as ex:
+        res = list(ex.map(work, jobs))
+    model = solvelib.Model(*pinf_ninf)
+    pend = []
+    for (start, ops), (lines, tr) in zip(jobs, res):
+        ctx = {"start": start, "ops": ops[:200]}
+        if tr.crashed:
+            continue        # crashes are reported by tie (a)
+        views = [raw_view(blk) for op, blk in tr if op.startswith("dumpraw")]
+        rcs = [proto.get(blk, "rc") for op, blk in tr if not op.startswith("dumpraw")][1:]
+        if any(v is None for v in views) or len(views) != len(ops) + 1:
+            continue
+        sops, expect = [], []
+        for o, rc, before, after in zip(ops, rcs, views, views[1:]):
+            so = store_op(o) if rc == ["0"] else None
+            if so is None:
+                if before != after:
+                    rep.violation("a call that does not edit the matrix (or was rejected) changed the raw column store: %r" % o, dict(ctx, before=before, after=after),
+                                  signature={"symptom": "store-changed-by-non-edit", "op": o.split()[0]})
+                    break
+                continue
+            sops.append(so)
+            expect.append((o, after))
+        v0 = views[0]
+        def arr(v):
+            return " ".join(v) if v else "0"
+        init = "%s %s %s %s %s %s" % (" ".join(v0["raw"]), arr(v0["matbeg"]), arr(v0["matcnt"]), arr(v0["matind"]), arr(v0["structmap"]), arr(v0["rowmap"]))
+        if sops:
+            pend.append((model.ask("store %s %d %s" % (init, len(sops), " ".join(sops))), expect, ctx))
+    model.run()
+    for k, expect, ctx in pend:
+        ans = model.ans(k)
+        if any(e[0] == "bad-op" for e in ans):
+            raise RuntimeError("model driver rejected a store line")
+        blocks, cur = [], None
+        for e in ans:
+            if e[0] == "raw":
+                cur = []
+                blocks.append(cur)
+            if cur is not None:
+                cur.append(e)
+        ev.cov["traces_validated_against_impl"] += 1
+        for i, (o, after) in enumerate(expect):
+            blk = blocks[i] if i < len(blocks) else []
+            acct = proto.get(blk, "acct")
+            if acct:
+                ev.stat("addrow-accounting:" + acct[0].split(":")[0])
+                if acct[0].startswith("MISMATCH"):
+                    rep.violation("the free-space accounting abstraction (StoreAcct) does not describe what the Store model did for %r" % o, ctx,
+                                  signature={"symptom": "accounting-mismatch"}, found_input=True)
+                    break
+            got = {"raw": [x.split("=")[1] for x in proto.get(blk, "raw")]}
+            for key in ("structmap", "rowmap", "matbeg", "matcnt", "matind"):
+                got[key] = proto.get(blk, key)
+            ev.count("store|" + o[:80] + str(after["raw"]))
+            ev.stat("store-op:" + o.split()[0])
+            w = proto.get(blk, "writes")
+            if w and w[2] != "1":
+                rep.violation("the Store model itself writes outside the array for %r (index %s of %s)" % (o, w[1], got["raw"][2]), ctx, signature={"symptom": "store-model-oob"})
+                break
+            if got != after:
+                bad = [key for key in after if after[key] != got.get(key)]
+                rep.violation("raw column store after %r differs from the Store model in %s: C %s, model %s" % (o, bad[0], " ".join(after[bad[0]] or [])[:200], " ".join(got.get(bad[0]) or [])[:200]),
+                              dict(ctx, at=o, field=bad[0]), signature={"symptom": "store-differs", "op": o.split()[0], "field": bad[0]})
+                break
+
+
 def run(pid, tier, seed):
     ev = core.Evidence(pid, tier, seed, "proof")
     rep = core.Reporter(pid, seed, ev)
@@ -103,6 +236,7 @@ def run(pid, tier, seed):
         rep.violation("query API differs from the reference model after %s: %s C=%s model=%s" % (opk, key, " ".join(cv or ["-"])[:300], " ".join(mv or ["-"])[:300]),
                       {"start": start, "ops_minimized": small, "first_divergence_line": lines[i], "after_op": lines[j], "key": key,
                        "c": cv, "model": mv}, signature={"symptom": "api-differs", "op": opk, "key": key})
+    store_tie(exe, rng.fork("storetie"), quick, ev, rep, proto.INF_LINE.split()[1:3])
     for thm, why in pr["failed"]:
         rep.violation("proof obligation no longer checks: %s (%s)" % (thm, why), {"theorem": thm, "why": why, "log": pr["log"][-2000:]},
                       signature={"symptom": "proof", "theorem": thm}, found_input=False)
